@@ -75,8 +75,8 @@ def check(ctx):
                          (vlib.coq_bytes(c), lim[0], lim[1], lim[2], lim[3], lim[4], parts[0], parts[1], parts[2], parts[3]))
         header = ("From Coq Require Import String.\nFrom SLX Require Import Base gen.ValueSig SymVal VM AbiT VmCases SimCases.\n"
                   "Open Scope string_scope. Open Scope N_scope.\n")
-        bad = vlib.run_cases(ctx, "strict-permissive", header, terms, per_shard=min(100, max(1, len(terms) // 32 + 1)), fn="check_c17r2")
-        decided = vlib.run_cases(ctx, "reference-decided", header, terms, per_shard=min(100, max(1, len(terms) // 32 + 1)), fn="c17_ref_decided")
+        bad = vlib.run_cases(ctx, "strict-permissive", header, terms, per_shard=min(100, max(1, len(terms) // 32 + 1)), fn="check_c17r3")
+        decided = vlib.run_cases(ctx, "reference-decided", header, terms, per_shard=min(100, max(1, len(terms) // 32 + 1)), fn="c17_ref_decided_lf")
         disagreements = []
         for idx, code in bad:
             c, lim = keys[idx]
